@@ -275,6 +275,8 @@ type hostCase struct {
 	value any
 }
 
+var c20now = time.Now() // carries a monotonic clock reading
+
 func hostCases() []hostCase {
 	t0 := time.Unix(1700000000, 123456789).UTC()
 	arr := []*variants.Variant{variants.VariantFromInteger(1), variants.VariantFromString("x")}
@@ -310,6 +312,10 @@ func hostCases() []hostCase {
 		hostCase{"[]*Variant", arr}, hostCase{"[]*Variant", []*variants.Variant{}},
 		hostCase{"*Variant", variants.VariantFromString("s")}, hostCase{"*Variant", variants.VariantFromArray(arr)}, hostCase{"*Variant", variants.EmptyVariant()},
 		hostCase{"*Variant", variants.VariantFromDouble(2.5)},
+		hostCase{"time.Time", c20now}, hostCase{"time.Time", c20now.Add(time.Hour)}, hostCase{"time.Time", time.Unix(1700000000, 5).In(time.FixedZone("east", 19800))},
+		hostCase{"time.Time", time.Date(9999, 12, 31, 23, 59, 59, 999999999, time.UTC)}, hostCase{"time.Duration", time.Duration(math.MaxInt64)}, hostCase{"time.Duration", time.Duration(math.MinInt64)},
+		hostCase{"other", (*int)(nil)}, hostCase{"other", (*c06obj)(nil)}, hostCase{"other", []int(nil)}, hostCase{"other", map[string]int(nil)}, hostCase{"other", []string{}}, hostCase{"other", &c06obj{5}},
+		hostCase{"other", int8(-3)}, hostCase{"other", uint16(9)}, hostCase{"other", uint64(1 << 63)}, hostCase{"other", complex(1, 2)}, hostCase{"int32", 'x'},
 		hostCase{"nil", nil}, hostCase{"other", struct{ A int }{3}}, hostCase{"other", map[string]int{"a": 1}}, hostCase{"other", uint8(3)})
 	return cs
 }
@@ -317,7 +323,7 @@ func hostCases() []hostCase {
 func canon(v any) string {
 	switch x := v.(type) {
 	case time.Time:
-		return x.Format(time.RFC3339Nano)
+		return x.String() + "|" + x.Location().String() // wall clock, zone and monotonic reading
 	case []*variants.Variant:
 		s := "["
 		for _, e := range x {
